@@ -137,7 +137,8 @@ def zip_pairs(rng, n):
             else:
                 cdata = data
             system = rng.choice([3, 3, 0])
-            mode = {"file": rng.choice([0o100644, 0o100755]), "dir": 0o40755, "empty": 0o100644, "symlink": 0o120777}[kind]
+            # a mode with permission bits only (no file-type bits) is what zipfile.writestr() and several other writers store
+            mode = {"file": rng.choice([0o100644, 0o100755, 0o600, 0o755, 0o104755]), "dir": 0o40755, "empty": rng.choice([0o100644, 0o644]), "symlink": 0o120777}[kind]
             ext = (mode << 16) if system == 3 else 0
             content.append((name, flags, method, data, cdata, system, ext))
 
